@@ -579,7 +579,7 @@ Ltac fin_tac := first [ assumption | apply fin_one | apply fin_zero | apply fin_
   | match goal with H : unitF ?x |- fin ?x => exact (proj1 H) end ].
 Ltac pose_lits := pose proof R_of_one as Lit1; pose proof R_of_zero as Lit0; pose proof R_of_two as Lit2;
   pose proof R_of_half as LitH.
-Ltac arith := first [ lra | timeout 30 nra ].
+Ltac arith := rewrite ?R_of_one, ?R_of_zero, ?R_of_two, ?R_of_half; first [ lra | timeout 30 nra ].
 
 (* `fadd x y in lo hi as F E B` : F : fin (x+y), E : R_of (x+y) = RN (R_of x + R_of y), B : lo <= R_of (x+y) <= hi,
    provided lo and hi are representable and bound the exact result (checked by lra/nra from the context) *)
@@ -634,4 +634,172 @@ Proof.
   assert (S : safe (R_of u / R_of v)) by (rewrite Q; apply safe_4; lra).
   destruct (div_RN u v Fu Fv Z S) as [F E]. split; [exact F |].
   rewrite E, Q. apply RN_0.
+Qed.
+
+(* ------------------------------------------------------------------ square roots *)
+Lemma sqrt_bounds r lo hi : 0 <= lo -> 0 <= hi -> lo * lo <= r <= hi * hi -> lo <= R_sqrt.sqrt r <= hi.
+Proof.
+  intros Hlo Hhi [H1 H2]. split.
+  - rewrite <- (sqrt_square lo Hlo). apply sqrt_le_1_alt. exact H1.
+  - rewrite <- (sqrt_square hi Hhi). apply sqrt_le_1_alt. exact H2.
+Qed.
+Tactic Notation "fsqrt" constr(x) "in" constr(lo) constr(hi) "as" ident(F) ident(E) ident(B) :=
+  destruct (sqrt_RN x ltac:(fin_tac) ltac:(arith)) as [F E];
+  assert (B : lo <= R_of (PrimFloat.sqrt x) <= hi)
+    by (rewrite E; apply RN_bounds; [fmt_tac | fmt_tac | apply sqrt_bounds; arith]).
+
+(* ------------------------------------------------------------------ symmetry of rounding, slopes of piecewise-linear terms *)
+Lemma RN_opp r : RN (- r) = - RN r.
+Proof. unfold RN. apply round_NE_opp. Qed.
+Lemma safe_opp r : safe r -> safe (- r).
+Proof. unfold safe. now rewrite RN_opp, Rabs_Ropp. Qed.
+Lemma sub_fin_swap a b : fin a -> fin b -> fin (PrimFloat.sub a b) -> fin (PrimFloat.sub b a).
+Proof.
+  intros Fa Fb F. destruct (sub_fin_inv a b Fa Fb F) as [S _].
+  assert (S' : safe (R_of b - R_of a)).
+  { replace (R_of b - R_of a) with (- (R_of a - R_of b)) by ring. now apply safe_opp. }
+  apply (sub_RN b a Fb Fa S').
+Qed.
+
+(* (x - a) / (b - a)  for a <= x <= b, a < b, provided b - a does not overflow: finite and in [0,1] *)
+Lemma slope_up x a b : fin x -> fin a -> fin b -> fin (PrimFloat.sub b a) ->
+  R_of a <= R_of x <= R_of b -> R_of a < R_of b ->
+  unitF (PrimFloat.div (PrimFloat.sub x a) (PrimFloat.sub b a)).
+Proof.
+  intros Fx Fa Fb Fba Hx Hab.
+  destruct (sub_fin_inv b a Fb Fa Fba) as [Sba Eba].
+  assert (Sxa : safe (R_of x - R_of a)) by (apply (safe_mono _ (R_of b - R_of a)); [lra | exact Sba]).
+  destruct (sub_RN x a Fx Fa Sxa) as [Fxa Exa].
+  destruct (sub_pos b a Fb Fa Sba Hab) as (_ & Pba & _).
+  assert (L0 : 0 <= R_of (PrimFloat.sub x a)) by (rewrite Exa; apply RN_ge; [apply fmt_0 | lra]).
+  assert (L1 : R_of (PrimFloat.sub x a) <= R_of (PrimFloat.sub b a)) by (rewrite Exa, Eba; apply RN_le; lra).
+  apply (div_unit _ _ Fxa Fba (conj L0 L1) Pba).
+Qed.
+(* (c - x) / (c - b)  for b <= x <= c, b < c *)
+Lemma slope_down x b c : fin x -> fin b -> fin c -> fin (PrimFloat.sub c b) ->
+  R_of b <= R_of x <= R_of c -> R_of b < R_of c ->
+  unitF (PrimFloat.div (PrimFloat.sub c x) (PrimFloat.sub c b)).
+Proof.
+  intros Fx Fb Fc Fcb Hx Hbc.
+  destruct (sub_fin_inv c b Fc Fb Fcb) as [Scb Ecb].
+  assert (Scx : safe (R_of c - R_of x)) by (apply (safe_mono _ (R_of c - R_of b)); [lra | exact Scb]).
+  destruct (sub_RN c x Fc Fx Scx) as [Fcx Ecx].
+  destruct (sub_pos c b Fc Fb Scb Hbc) as (_ & Pcb & _).
+  assert (L0 : 0 <= R_of (PrimFloat.sub c x)) by (rewrite Ecx; apply RN_ge; [apply fmt_0 | lra]).
+  assert (L1 : R_of (PrimFloat.sub c x) <= R_of (PrimFloat.sub c b)) by (rewrite Ecx, Ecb; apply RN_le; lra).
+  apply (div_unit _ _ Fcx Fcb (conj L0 L1) Pcb).
+Qed.
+
+(* ------------------------------------------------------------------ finer facts: exact doubling, representable a+b-1, half-ulp error on [1,2] *)
+(* doubling is exact in the format (no upper exponent bound in `fmt`) *)
+Lemma fmt_double x : fmt x -> fmt (2 * x).
+Proof.
+  intros Fx. unfold fmt in *.
+  change fexp64 with (FLT_exp (SpecFloat.emin prec emax) prec) in *.
+  apply FLT_format_generic in Fx; [| exact Hprec]. destruct Fx as [[m e] H1 H2 H3]. simpl in H2, H3.
+  apply generic_format_FLT. exists (Float radix2 m (e + 1)); simpl.
+  - rewrite H1. unfold F2R. simpl. rewrite bpow_plus. change (bpow radix2 1) with 2. ring.
+  - exact H2.
+  - lia.
+Qed.
+
+(* multiples of 2^e *)
+Definition mult (e : Z) (x : R) : Prop := exists k : Z, x = IZR k * bpow radix2 e.
+Lemma mult_plus e x y : mult e x -> mult e y -> mult e (x + y).
+Proof. intros [k ->] [l ->]. exists (k + l)%Z. rewrite plus_IZR. ring. Qed.
+Lemma mult_opp e x : mult e x -> mult e (- x).
+Proof. intros [k ->]. exists (- k)%Z. rewrite opp_IZR. ring. Qed.
+Lemma mult_of_fmt e x : fmt x -> (e <= cexp radix2 fexp64 x)%Z -> mult e x.
+Proof.
+  intros Fx He. unfold fmt, generic_format in Fx.
+  set (m := Ztrunc (scaled_mantissa radix2 fexp64 x)) in *. set (c := cexp radix2 fexp64 x) in *.
+  exists (m * 2 ^ (c - e))%Z. rewrite Fx at 1. unfold F2R. simpl.
+  rewrite mult_IZR. rewrite (IZR_Zpower radix2) by lia.
+  rewrite Rmult_assoc, <- bpow_plus. f_equal. f_equal. lia.
+Qed.
+Lemma fmt_of_mult x a : fmt a -> a <> 0 -> mult (cexp radix2 fexp64 a) x -> Rabs x <= Rabs a -> fmt x.
+Proof.
+  intros Fa Na [k ->] Hx. set (e := cexp radix2 fexp64 a) in *.
+  change (IZR k * bpow radix2 e) with (F2R (Float radix2 k e)) in *.
+  apply generic_format_F2R. intros Nk.
+  unfold cexp. fold (cexp radix2 fexp64 a). unfold e, cexp.
+  apply mono_fexp64. apply mag_le_abs; [| exact Hx].
+  apply F2R_neq_0. exact Nk.
+Qed.
+Lemma cexp_le_pos x y : 0 < x -> x <= y -> (cexp radix2 fexp64 x <= cexp radix2 fexp64 y)%Z.
+Proof. intros Hx Hxy. unfold cexp. apply mono_fexp64. apply mag_le; assumption. Qed.
+
+(* a, b representable in [0,1] with a + b >= 1: a + b - 1 is representable *)
+Lemma fmt_sum_minus_1_aux a b : fmt a -> fmt b -> 0 <= a -> a <= b -> b <= 1 -> 1 <= a + b -> fmt (a + b - 1).
+Proof.
+  intros Fa Fb Ha Hab Hb H1.
+  destruct (Req_dec a 0) as [Za | Na].
+  - replace (a + b - 1) with 0 by lra. apply fmt_0.
+  - assert (Pa : 0 < a) by lra.
+    apply (fmt_of_mult _ a Fa Na).
+    + replace (a + b - 1) with (a + (b + - (1))) by ring.
+      apply mult_plus; [apply mult_of_fmt; [exact Fa | lia] |].
+      apply mult_plus; [apply mult_of_fmt; [exact Fb | apply cexp_le_pos; lra] |].
+      apply mult_opp. apply mult_of_fmt; [apply fmt_1 | apply cexp_le_pos; lra].
+    + rewrite !Rabs_pos_eq by lra. lra.
+Qed.
+Lemma fmt_sum_minus_1 a b : fmt a -> fmt b -> 0 <= a <= 1 -> 0 <= b <= 1 -> 1 <= a + b -> fmt (a + b - 1).
+Proof.
+  intros Fa Fb Ha Hb H1. destruct (Rle_dec a b) as [L | L].
+  - apply fmt_sum_minus_1_aux; lra || assumption.
+  - replace (a + b - 1) with (b + a - 1) by ring. apply fmt_sum_minus_1_aux; lra || assumption.
+Qed.
+
+(* key fact: the rounded product dominates the Lukasiewicz bound *)
+Lemma RN_mul_ge_luk a b : fmt a -> fmt b -> 0 <= a <= 1 -> 0 <= b <= 1 -> a + b - 1 <= RN (a * b).
+Proof.
+  intros Fa Fb Ha Hb. destruct (Rle_dec 1 (a + b)) as [L | L].
+  - apply RN_ge; [now apply fmt_sum_minus_1 | nra].
+  - assert (0 <= RN (a * b)) by (apply RN_ge; [apply fmt_0 | nra]). lra.
+Qed.
+
+(* rounding error at most 2^-53 on [1,2] *)
+Lemma RN_err_12 y : 1 <= y <= 2 -> Rabs (RN y - y) <= bpow radix2 (-53).
+Proof.
+  intros [H1 H2]. destruct (Req_dec y 2) as [-> | N2].
+  - rewrite (RN_id 2 fmt_2). replace (2 - 2) with 0 by ring. rewrite Rabs_R0. apply bpow_ge_0.
+  - unfold RN. eapply Rle_trans; [apply error_le_half_ulp; auto with typeclass_instances |].
+    rewrite ulp_neq_0 by lra. unfold cexp.
+    rewrite (mag_unique radix2 y 1).
+    + replace (fexp64 1) with (-52)%Z by reflexivity.
+      assert (E : bpow radix2 (-52) = 2 * bpow radix2 (-53)).
+      { change (-52)%Z with (1 + -53)%Z. rewrite bpow_plus. reflexivity. }
+      rewrite E. lra.
+    + rewrite Rabs_pos_eq by lra. simpl. lra.
+Qed.
+
+Lemma R_of_2m53 : R_of 0x1p-53%float = bpow radix2 (-53).
+Proof.
+  rewrite R_of_SF.
+  match goal with |- context [Prim2SF ?c] =>
+    let v := eval vm_compute in (Prim2SF c) in change (Prim2SF c) with v end.
+  unfold SF2R, F2R. simpl. lra.
+Qed.
+Lemma R_of_pred1 : R_of 0x1.fffffffffffffp-1%float = 1 - bpow radix2 (-53).
+Proof.
+  rewrite R_of_SF.
+  match goal with |- context [Prim2SF ?c] =>
+    let v := eval vm_compute in (Prim2SF c) in change (Prim2SF c) with v end.
+  unfold SF2R, F2R. simpl. lra.
+Qed.
+Lemma RN_1_plus_half_ulp : RN (1 + bpow radix2 (-53)) = 1.
+Proof.
+  assert (F1 : fin 0x1p-53%float) by (apply fin_is_finite; vm_compute; reflexivity).
+  assert (S : safe (R_of 1%float + R_of 0x1p-53%float)).
+  { rewrite R_of_one, R_of_2m53. apply safe_4. assert (0 <= bpow radix2 (-53) <= 1).
+    { split; [apply bpow_ge_0 | change 1 with (bpow radix2 0); apply bpow_le; lia]. } lra. }
+  destruct (add_RN 1%float 0x1p-53%float fin_one F1 S) as [_ E].
+  rewrite R_of_one, R_of_2m53 in E. rewrite <- E.
+  replace (1 + 0x1p-53)%float with 1%float by (vm_compute; reflexivity). apply R_of_one.
+Qed.
+Lemma fmt_pred1 : fmt (1 - bpow radix2 (-53)).
+Proof. rewrite <- R_of_pred1. apply fmt_R_of. Qed.
+Lemma bpow_m53_small : 0 < bpow radix2 (-53) <= 1 / 4.
+Proof.
+  split; [apply bpow_gt_0 |]. replace (1 / 4) with (bpow radix2 (-2)) by (simpl; lra). apply bpow_le. lia.
 Qed.
